@@ -30,7 +30,7 @@ RULE = ('depth-first enumeration of ALL call sequences over the 12-symbol alphab
         'x configuration (it stands for all its enumerated extensions) and for every random sequence. '
         'non-trivial = the watch has left the new state at that point')
 _PAIRS = ['visit %s/%s' % (s, o) for s in STATES for o in OPS]
-REQUIRED_CLAUSES = [
+REQUIRED_CLAUSES = ['clock-replaced-mid-history', 
     'outcome-equals-model', 'illegal-call-raises-RuntimeError', 'illegal-call-leaves-watch-unchanged',
     'elapsed-nonnegative', 'elapsed-nonnegative-backwards-clock', 'elapsed-le-maximum',
     'elapsed-is-distance-from-last-restart-while-running', 'elapsed-is-distance-to-stop-instant-while-stopped',
